@@ -19,13 +19,13 @@ GUARD = 'MEDDLY_VERIF'
 
 CLANG = 'clang++-14'
 IRFLAGS = ['-std=c++17', '-O1', '-fno-vectorize', '-fno-slp-vectorize', '-fno-unroll-loops',
+           '-mllvm', '-simplifycfg-sink-common=false', '-mllvm', '-simplifycfg-hoist-common=false',
            '-I' + REPO, '-I' + SRC, '-I' + HARN, '-D' + GUARD, '-DHAVE_CONFIG_H', '-w', '-S', '-emit-llvm']
 GXXFLAGS = ['-std=c++17', '-O1', '-I' + REPO, '-I' + SRC, '-I' + HARN, '-D' + GUARD, '-DHAVE_CONFIG_H', '-w']
 
 DEFAULT_STUB = r'dumpInternal|reportStats|showInternal|reportMemoryUsage|^_ZNK?6MEDDLY6output|^_ZN6MEDDLY9FILE_output|^_ZN6MEDDLY14ostream_output'
 
-CBMC_BASE = ['--unwinding-assertions', '--no-malloc-may-fail', '--verbosity', '8', '--trace',
-             '--no-built-in-assertions']
+CBMC_BASE = ['--unwinding-assertions', '--no-malloc-may-fail', '--verbosity', '8', '--trace']
 
 def sh(cmd, cwd=None, timeout=None, env=None, mem_gb=None, capture=True):
     """run, return (rc, stdout+stderr, wall_s, maxrss_kb)"""
@@ -50,6 +50,12 @@ def sh(cmd, cwd=None, timeout=None, env=None, mem_gb=None, capture=True):
         rc = -999
     ru = resource.getrusage(resource.RUSAGE_CHILDREN)
     return (rc, out, time.time() - t0, ru.ru_maxrss)
+
+def all_units():
+    """every .cc of libmeddly, read from /repo/src/Makefile.am on each run"""
+    txt = open(os.path.join(SRC, 'Makefile.am')).read()
+    m = re.search(r'libmeddly_la_SOURCES\s*=(.*?)\n\s*\n', txt, re.S)
+    return sorted(set(re.findall(r'([A-Za-z0-9_/]+\.cc)', m.group(1))))
 
 class ToolError(Exception):
     pass
@@ -130,7 +136,7 @@ class Job:
     def __init__(s, prop, name, src, root, units=(), defines=None, unwind=2, unwindset=None, flags=(),
                  backend='sat', timeout=600, mem_gb=12, tier='quick', stub=None, desc='', object_bits=None,
                  tv=20, covers=(), realloc_copy_max=None, extra_c=(), no_checks=False, arena=None,
-                 expect_fail=(), gxx_extra=()):
+                 expect_fail=(), gxx_extra=(), unit_defines=None, gxx_units=()):
         s.prop = prop; s.name = name; s.src = src; s.root = root; s.units = list(units)
         s.defines = dict(defines or {}); s.unwind = unwind; s.unwindset = dict(unwindset or {})
         s.flags = list(flags); s.backend = backend; s.timeout = timeout; s.mem_gb = mem_gb; s.tier = tier
@@ -138,6 +144,7 @@ class Job:
         s.desc = desc; s.object_bits = object_bits; s.tv = tv; s.covers = list(covers)
         s.realloc_copy_max = realloc_copy_max; s.extra_c = list(extra_c); s.no_checks = no_checks
         s.arena = arena; s.expect_fail = list(expect_fail); s.gxx_extra = list(gxx_extra)
+        s.unit_defines = dict(unit_defines or {}); s.gxx_units = list(gxx_units)
 
 def backend_flags(b, bdir):
     env = dict(os.environ)
@@ -161,10 +168,12 @@ def backend_flags(b, bdir):
 def build_job(job, bdir, log):
     """translate; returns dict with paths and translation info"""
     os.makedirs(bdir, exist_ok=True)
-    dfl = ['-D%s=%s' % kv for kv in sorted(job.defines.items())]
+    dfl = ['-D%s=%s' % kv for kv in sorted({**job.unit_defines, **job.defines}.items())]
     hll = os.path.join(bdir, 'h.ll')
     must([CLANG] + IRFLAGS + dfl + [os.path.join(HARN, job.src), '-o', hll])
-    ulls = [compile_unit_ll(bdir, u, {}) for u in job.units]
+    units = all_units() if job.units == ['ALL'] else job.units
+    with ThreadPoolExecutor(8) as ex:
+        ulls = list(ex.map(lambda u: compile_unit_ll(bdir, u, job.unit_defines), units))
     allll = os.path.join(bdir, 'all.ll')
     if ulls:
         must(['llvm-link-14', '-S', hll] + ulls + ['-o', allll])
@@ -180,8 +189,6 @@ def build_job(job, bdir, log):
     info['externs'] = re.findall(r'EXTERN (\S+)', out)
     fl = os.path.join(bdir, 'x.c.funcs')
     info['functions'] = open(fl).read().split() if os.path.exists(fl) else []
-    if job.arena:
-        apply_arena(xc, job.arena)
     mainc = os.path.join(bdir, 'main.c')
     open(mainc, 'w').write('void __ll2c_run_ctors(void);\nvoid %s(void);\nint main(void) { __ll2c_run_ctors(); %s(); return 0; }\n' % (job.root, job.root))
     return {'xc': xc, 'mainc': mainc, 'info': info}
@@ -232,12 +239,12 @@ def run_cbmc(job, gb, bdir, witness=False):
 def build_concrete(job, bdir, built):
     """g++ build of the harness + the real units + concrete vp runtime -> executable"""
     exe = os.path.join(bdir, 'real.exe')
-    dfl = ['-D%s=%s' % kv for kv in sorted(job.defines.items())]
+    dfl = ['-D%s=%s' % kv for kv in sorted({**job.unit_defines, **job.defines}.items())]
     mainc = os.path.join(bdir, 'main_cc.cc')
     open(mainc, 'w').write('extern "C" void %s();\nint main() { %s(); return 0; }\n' % (job.root, job.root))
     rtc = os.path.join(bdir, 'rt_concrete.o')
     must(['gcc', '-O1', '-c', os.path.join(RT, 'rt_concrete.c'), '-o', rtc])
-    srcs = [os.path.join(HARN, job.src)] + [os.path.join(SRC, u) for u in job.units]
+    srcs = [os.path.join(HARN, job.src)] + [os.path.join(SRC, u) for u in (all_units() if job.units == ['ALL'] else job.units + job.gxx_units)]
     must(['g++'] + GXXFLAGS + dfl + srcs + [mainc, rtc] + job.gxx_extra + ['-o', exe])
     return exe
 
@@ -301,6 +308,7 @@ def run_job(job, seed, keep=False):
         built = build_job(job, bdir, None)
         R['translate'] = {k: v for k, v in built['info'].items()}
         cdefs = ['-DVP_LOG_MAX=%d' % job.defines.get('VP_LOG_MAX', 128)]
+        if job.arena: cdefs.append('-D__LL2C_ARENA_%s=%d' % job.arena)
         if job.realloc_copy_max is not None: cdefs.append('-D__LL2C_REALLOC_COPY_MAX=%d' % job.realloc_copy_max)
         gb = make_gb(bdir, built['xc'], built['mainc'], 'm', cdefs, job.extra_c)
         gbw = make_gb(bdir, built['xc'], built['mainc'], 'w', cdefs + ['-DWITNESS'], job.extra_c)
